@@ -49,7 +49,19 @@ let c20_logmwlvl args =
      | _ -> failwith "logmwlvl: bad request")
   | _ -> failwith "logmwlvl: bad args"
 
+(* logmw2: n LogMiddlewares around one handler: each "finished" record carries the handler's code
+   (finished_code of the model: 200 when none was set); the client gets the handler's calls *)
+let c20_logmw2 args =
+  match args with
+  | [code; n] ->
+    let c = int_of_string code and n = int_of_string n in
+    let shown = if c = 0 then "200" else string_of_int c in
+    "finished=" ^ String.concat "," (List.init n (fun _ -> shown))
+    ^ " client=" ^ (if c = 0 then "w:x" else "h" ^ string_of_int c ^ ".w:x")
+  | _ -> failwith "logmw2: bad args"
+
 let () =
+  Registry.register "logmw2" c20_logmw2;
   Registry.register "logmwlvl" c20_logmwlvl;
   Registry.register "wrap" c20_wrap;
   Registry.register "logmw" c20_logmw
